@@ -142,6 +142,10 @@ func check(c Case) (out []byte, err error) {
 		if wantErr == nil && !bytes.Equal(got, want) {
 			return fmt.Errorf("%s: output differs from the plain call:\n got: %q\nwant: %q", c.Entry, clip(got), clip(want))
 		}
+		if wantErr != nil && got != nil && (c.Entry == "Reader" || c.Entry == "Writer" || c.Entry == "MinifyMimetype") && !bytes.Equal(got, want) {
+			// the streaming entry points deliver what the minifier wrote before it failed, like the plain call
+			return fmt.Errorf("%s: output in front of the error differs from the plain call:\n got: %q\nwant: %q", c.Entry, clip(got), clip(want))
+		}
 		return nil
 	}
 	priv := append([]byte{}, in...)
